@@ -13,7 +13,7 @@ def gen_config(rng, tier):
     n = rng.choice([1, 2, 2, 3, 3, 3, 4, 4] + ([5] if tier == "thorough" else []))
     ops = {"new": 1.0, "cnew": 1.5, "cfwd": 3.0, "cbwd": 2.0, "postselect": 2.0, "mlayer": 1.5}
     for k, w in (("rot", 1.5), ("tmap", 1.0), ("gate", 0.7), ("copy", 0.4), ("setr", 0.5),
-                 ("ctake", 1.0), ("ccompile", 0.5), ("measure", 0.5)):
+                 ("ctake", 1.0), ("ccompile", 0.5), ("measure", 0.5), ("relayout", 0.3)):
         if rng.random() < 0.7:
             ops[k] = w * rng.choice([0.5, 1.0, 2.0])
     faults = [f for f in ("coin_force", "rejected_op") if rng.random() < 0.75]
